@@ -197,6 +197,14 @@ fn run_check(args: &[String]) -> i32 {
     let t0 = std::time::Instant::now();
     let mut rng = Rng(ctx.seed ^ prop.bytes().fold(0u64, |a, b| a.wrapping_mul(131).wrapping_add(b as u64)));
     let mut plan = props::plan(&ctx, &mut rng, ctx.tier);
+    // minimised past failures first: inputs on which this property's check once failed (under a seeded change, or before a repair)
+    let corpus: Vec<Case> = std::fs::read_to_string(format!("{}/corpus/{}.jsonl", ctx.verif_dir, prop))
+        .map(|t| t.lines().filter_map(|l| minijson::parse(l).ok()).filter_map(|j| case_from_json(&j)).collect())
+        .unwrap_or_default();
+    if !corpus.is_empty() && !plan.cases.is_empty() {
+        plan.explanation.push_str(&format!("; {} corpus cases (inputs of past failures) run first", corpus.len()));
+        plan.cases.splice(0..0, corpus);
+    }
     // The source differs from the tree this machinery was last verified against: look harder where the change is.
     // (a) code points and characters named in the changed lines become atoms of extra cases under the property's
     //     own settings; (b) at the quick tier a seeded sample of the thorough plan is added.
